@@ -47,8 +47,8 @@ pub fn first_diff(a: &str, b: &str) -> String {
 impl Prop for ModelProg {
     fn cases(&self, tier: Tier) -> u64 {
         match tier {
-            Tier::Quick => 36_000,
-            Tier::Thorough => 2_000_000,
+            Tier::Quick => 150_000,
+            Tier::Thorough => 4_000_000,
         }
     }
 
